@@ -25,7 +25,7 @@ pub fn def() -> PropDef {
         rule: "well-formed AIGs: generated numbers of inputs/latches/gates, a random permutation of variable \
                indices with gaps, shuffled gate order, inputs with random negations, constants and x/!x/x,x pairs as \
                gate inputs, duplicate gates, unreachable gates, 0..3 of every root section, all 8 option \
-               combinations, literal types u16/u32/usize; plus deep chains/trees of 10^4..10^6 gates. Oracle: (a) \
+               combinations, literal types u8/u16/u32/u64/usize, with the variables optionally renamed (mirrored to the last variables of the type, sparse with groups agreeing modulo 2^32, spread by a large stride); plus deep chains/trees of 10^4..10^6 gates and graphs that use every variable of u8 / u16. Oracle: (a) \
                structure - input and latch counts preserved, max_var_index = I+L+A', every gate's inputs below its \
                code with the larger first, all literals <= 2M+1, the binary writer accepts the result and the binary \
                parser returns it unchanged; (b) function - an independent iterative simulator evaluates original \
@@ -270,11 +270,17 @@ pub fn check(c: &Case, obs: &mut Obs) -> CheckResult {
         let o = g.0.unwrap_or(0);
         probe.extend([o, o ^ 1]);
     }
-    let outcome = match c.lit % 3 {
+    let outcome = match c.lit % 5 {
         0 => renumber::<u16>(c, &probe),
         1 => renumber::<u32>(c, &probe),
-        _ => renumber::<usize>(c, &probe),
+        2 => renumber::<usize>(c, &probe),
+        3 => renumber::<u8>(c, &probe),
+        _ => renumber::<u64>(c, &probe),
     };
+    obs.class(format!("lit/{}", ["u16", "u32", "usize", "u8", "u64"][(c.lit % 5) as usize]));
+    let top_var = roots_and_defs_max_var(a);
+    obs.class_if(top_var == max_var_of(c.lit), "numbering-reaches-the-last-variable-of-the-type");
+    obs.class_if(top_var >= 1 << 32, "variables>=2^32");
     let cfg_name = format!(
         "trim={} strash={} fold={}",
         c.trim as u8, c.strash as u8, c.fold as u8
@@ -435,10 +441,12 @@ pub fn check(c: &Case, obs: &mut Obs) -> CheckResult {
 
     // binary writer/parser acceptance (skip for huge graphs: C03 covers the codec)
     if ordered.ands.len() <= 2000 {
-        let lit_idx = match c.lit % 3 {
+        let lit_idx = match c.lit % 5 {
             0 => 1,
             1 => 2,
-            _ => 4,
+            2 => 4,
+            3 => 0,
+            _ => 3,
         };
         let w = catch_unwind(AssertUnwindSafe(|| write_aiger_with_crate(&ordered, lit_idx, AigWriter::BinaryOrdered)));
         let bytes = match w {
@@ -464,6 +472,90 @@ pub fn check(c: &Case, obs: &mut Obs) -> CheckResult {
         );
     }
     Ok(())
+}
+
+/// Largest variable index of the literal type selected by `lit` (u16, u32, usize, u8, u64).
+fn max_var_of(lit: u8) -> u64 {
+    match lit % 5 {
+        0 => (u16::MAX >> 1) as u64,
+        1 => (u32::MAX >> 1) as u64,
+        3 => (u8::MAX >> 1) as u64,
+        _ => u64::MAX >> 1,
+    }
+}
+
+fn roots_and_defs_max_var(a: &AigOwned) -> u64 {
+    let defs = a
+        .inputs
+        .iter()
+        .copied()
+        .chain(a.latches.iter().filter_map(|l| l.0))
+        .chain(a.ands.iter().filter_map(|g| g.0));
+    defs.chain(roots(a)).map(|l| l >> 1).max().unwrap_or(0)
+}
+
+/// Renames the variables of a graph (a bijection, so well-formedness, defects and functions are
+/// unaffected). 1: the numbering is mirrored to the top of the literal type (variable 1 becomes
+/// the last variable the type can express). 2: sparse numbering in which groups of variables
+/// agree modulo 2^32 (64-bit types; identity otherwise). 3: spread by a large odd stride.
+fn relabel(mut a: AigOwned, mode: u8, lit: u8) -> AigOwned {
+    let top = max_var_of(lit);
+    let f = |v: u64| -> u64 {
+        if v == 0 {
+            return 0;
+        }
+        match mode {
+            1 => top - (v - 1),
+            2 if top > u32::MAX as u64 => (v - 1) / 3 + 1 + (((v - 1) % 3) << 32),
+            3 if top > u32::MAX as u64 => 1 + ((v - 1).wrapping_mul(0x0000_0100_0000_0001) & (top >> 1)),
+            _ => v,
+        }
+    };
+    if mode == 3 && top > u32::MAX as u64 {
+        // the stride map must stay injective on the variables in use
+        let mut seen = std::collections::HashSet::new();
+        let all = a
+            .inputs
+            .iter()
+            .copied()
+            .chain(a.latches.iter().flat_map(|l| [l.0.unwrap_or(0), l.1]))
+            .chain(a.ands.iter().flat_map(|g| [g.0.unwrap_or(0), g.1, g.2]))
+            .chain(roots(&a));
+        let mut vars = std::collections::HashSet::new();
+        for l in all {
+            vars.insert(l >> 1);
+        }
+        for v in vars {
+            if !seen.insert(f(v)) {
+                return a;
+            }
+        }
+    }
+    let g = |l: u64| -> u64 { (f(l >> 1) << 1) | (l & 1) };
+    for l in &mut a.inputs {
+        *l = g(*l);
+    }
+    for l in &mut a.latches {
+        l.0 = l.0.map(g);
+        l.1 = g(l.1);
+    }
+    for v in [&mut a.outputs, &mut a.bad, &mut a.constraints, &mut a.fairness] {
+        for l in v.iter_mut() {
+            *l = g(*l);
+        }
+    }
+    for j in &mut a.justice {
+        for l in j.iter_mut() {
+            *l = g(*l);
+        }
+    }
+    for gate in &mut a.ands {
+        gate.0 = gate.0.map(g);
+        gate.1 = g(gate.1);
+        gate.2 = g(gate.2);
+    }
+    a.max_var_index = roots_and_defs_max_var(&a).max(if mode == 0 { a.max_var_index } else { 0 });
+    a
 }
 
 // ---------------------------------------------------------------------------------------------
@@ -680,12 +772,20 @@ fn inject(mut a: AigOwned, defect: u8, picks: &[u32]) -> (AigOwned, String) {
 }
 
 fn case_strategy() -> impl Strategy<Value = Case> {
-    (base_strategy(), any::<[bool; 3]>(), 0u8..3, prop_oneof![5 => Just(None), 3 => (0u8..3).prop_map(Some)], any::<u64>()).prop_map(
-        |((aig, picks), [trim, strash, fold], lit, defect, patterns_seed)| {
+    (
+        base_strategy(),
+        any::<[bool; 3]>(),
+        0u8..5,
+        prop_oneof![5 => Just(None), 3 => (0u8..3).prop_map(Some)],
+        any::<u64>(),
+        prop_oneof![6 => Just(0u8), 1 => Just(1u8), 1 => Just(2u8), 1 => Just(3u8)],
+    )
+        .prop_map(|((aig, picks), [trim, strash, fold], lit, defect, patterns_seed, relabel_mode)| {
             let (aig, defect) = match defect {
                 None => (aig, String::new()),
                 Some(d) => inject(aig, d, &picks),
             };
+            let aig = relabel(aig, relabel_mode, lit);
             Case {
                 aig,
                 trim,
@@ -695,8 +795,7 @@ fn case_strategy() -> impl Strategy<Value = Case> {
                 defect,
                 patterns_seed,
             }
-        },
-    )
+        })
 }
 
 #[derive(Serialize, Deserialize, Clone, Debug, PartialEq, Eq, Hash)]
@@ -709,6 +808,13 @@ pub struct DeepCase {
     pub fold: bool,
     pub seed: u64,
     pub cyclic: bool,
+    /// Literal type as in `Case::lit`; 2 (usize) when absent.
+    #[serde(default = "deep_default_lit")]
+    pub lit: u8,
+}
+
+fn deep_default_lit() -> u8 {
+    2
 }
 
 fn build_deep(d: &DeepCase) -> Case {
@@ -757,7 +863,7 @@ fn build_deep(d: &DeepCase) -> Case {
         trim: d.trim,
         strash: d.strash,
         fold: d.fold,
-        lit: 2,
+        lit: d.lit,
         defect,
         patterns_seed: d.seed,
     }
@@ -770,8 +876,20 @@ pub fn check_deep(d: &DeepCase, obs: &mut Obs) -> CheckResult {
 }
 
 fn deep_strategy(max_gates: usize) -> impl Strategy<Value = DeepCase> {
-    (1000usize..=max_gates, 0u8..3, any::<[bool; 3]>(), any::<u64>(), any::<bool>()).prop_map(
-        |(gates, shape, [trim, strash, fold], seed, cyclic)| DeepCase {
+    (
+        // mostly deep graphs over usize; one in four uses every variable a narrow type has
+        // (3 inputs + gates = 127 for u8, 32767 for u16)
+        prop_oneof![
+            6 => (1000usize..=max_gates).prop_map(|g| (g, 2u8)),
+            1 => Just((124usize, 3u8)),
+            1 => Just((32764usize, 0u8)),
+        ],
+        0u8..3,
+        any::<[bool; 3]>(),
+        any::<u64>(),
+        any::<bool>(),
+    )
+        .prop_map(|((gates, lit), shape, [trim, strash, fold], seed, cyclic)| DeepCase {
             gates,
             shape,
             trim,
@@ -779,8 +897,8 @@ fn deep_strategy(max_gates: usize) -> impl Strategy<Value = DeepCase> {
             fold,
             seed,
             cyclic,
-        },
-    )
+            lit,
+        })
 }
 
 fn run(ctx: &Ctx) {
